@@ -261,14 +261,16 @@ def run(tier, seed, replay):
     v.coverage["evaluations"] = counters.get("evaluations", 0)
     v.coverage["distinct_nontrivial"] = counters.get("distinct", 0)
     v.coverage["counters"] = counters
-    # vacuity: the smoke script must have got replies through every protocol
-    missing = [p for p in PROFILES if not counters.get("reply_tcp_" + p)] + \
-              [p for p in PROFILES if p != "http" and not counters.get("reply_udp_" + p)]
-    if missing:
-        raise vlib.Broken("the smoke script never got a reply through: %s" % missing)
-    if counters.get("flow_mismatch", 0) > max(5, counters.get("started", 0) // 50):
-        raise vlib.Broken("%d of the smoke flows differ from the model's expectation (started: %d): the harness or the model is off"
-                          % (counters["flow_mismatch"], counters.get("started", 0)))
+    # vacuity: the smoke script must have got replies through every protocol (when the run is red anyway the
+    # violations are the better report: code that crashes or refuses everything also starves the smoke script)
+    if not v.violations:
+        missing = [p for p in PROFILES if not counters.get("reply_tcp_" + p)] + \
+                  [p for p in PROFILES if p != "http" and not counters.get("reply_udp_" + p)]
+        if missing:
+            raise vlib.Broken("the smoke script never got a reply through: %s" % missing)
+        if counters.get("flow_mismatch", 0) > max(5, counters.get("started", 0) // 50):
+            raise vlib.Broken("%d of the smoke flows differ from the model's expectation (started: %d): the harness or the model is off"
+                              % (counters["flow_mismatch"], counters.get("started", 0)))
     v.assumptions += ["GeoIP criteria and TLS certificate paths are excluded (no material offline)",
                       "tproxy / redirect servers are loaded but not started (no netfilter rules in the sandbox)",
                       "the smoke script's requests go to an IP address on loopback; name resolution by the router is never exercised",
